@@ -377,7 +377,7 @@ def shapes(R):
 
 
 def emit_shapes(ops, chk_ok, repo):
-    out = ['(* GENERATED by gen/gen_api.py from %s - do not edit *)' % repo,
+    out = ['(* GENERATED by gen/gen_api.py from the tree under test - do not edit *)',
            'From Coq Require Import String.', 'From Coq Require Import NArith ZArith List.',
            'From PyIpmi Require Import Lib.Res Lib.Bytes Model.ApiShape.', 'Import ListNotations.',
            'Open Scope string_scope.', '']
